@@ -106,6 +106,10 @@ func (e *Enc) newFrame(fn *ssa.Function, depth int, top bool) *Frame {
 				f.siteKeys[ins] = fmt.Sprintf("%s#%d", k, ord[k])
 				ord[k]++
 			}
+			if _, ok := ins.(*ssa.MapUpdate); ok {
+				f.siteKeys[ins] = fmt.Sprintf("mapupdate#%d", ord["$mapupdate"])
+				ord["$mapupdate"]++
+			}
 			if st, ok := ins.(*ssa.Store); ok {
 				switch st.Addr.(type) {
 				case *ssa.IndexAddr, *ssa.FieldAddr:
